@@ -44,8 +44,38 @@ pub fn install_panic_hook() {
         } else {
             String::new()
         };
-        let msg: String = msg.chars().take(240).collect();
-        eprintln!("panicked at {}: {}", site, msg);
+        let mut msg: String = msg.chars().take(240).collect();
+        // a panic raised inside std / a dependency (no #[track_caller] chain up to TurDB): name
+        // the innermost TurDB frame instead, the library location goes into the message
+        let mut site = site;
+        if !site.starts_with("src/") && !is_harness_site(&site) {
+            crate::trap::pause();
+            let bt = std::backtrace::Backtrace::force_capture().to_string();
+            crate::trap::resume();
+            let mut repo_frame: Option<String> = None;
+            let mut harness_first = false;
+            for line in bt.lines() {
+                let l = line.trim();
+                if let Some(rest) = l.strip_prefix("at ") {
+                    if let Some(r) = rest.strip_prefix("/repo/") {
+                        let parts: Vec<&str> = r.split(':').collect();
+                        if parts.len() >= 2 {
+                            repo_frame = Some(format!("{}:{}", parts[0], parts[1]));
+                            break;
+                        }
+                    } else if rest.contains("corruptsim/src/") && !rest.contains("guard.rs") {
+                        harness_first = true;
+                        break;
+                    }
+                }
+            }
+            if let (Some(f), false) = (repo_frame, harness_first) {
+                msg = format!("{} [raised at {}]", msg, site);
+                site = f;
+            }
+        }
+        // not "panicked at": the driver attributes that phrase to a dying child, these panics are caught
+        eprintln!("caught panic at {}: {}", site, msg);
         if let Ok(mut g) = LAST_PANIC.lock() {
             *g = Some(PanicInfo { site, msg });
         }
